@@ -47,17 +47,18 @@ def settles_args(fn: ast.AST):
     coll = a.vararg.arg if a.vararg else (a.args[-1].arg if a.args else None)
     if coll is None:
         return False
-    # awaiting wait(<all of them>) without FIRST_COMPLETED / timeout, or gather(*<all of them>), returns only when every one is done
-    for n in ast.walk(fn):
-        if isinstance(n, ast.Await) and isinstance(n.value, ast.Call):
-            c = n.value
-            nm = call_name(c)
-            if nm == "wait" and c.args and isinstance(c.args[0], ast.Name) and c.args[0].id == coll and not any(k.arg in ("return_when", "timeout") for k in c.keywords):
-                return True
-            if nm == "gather" and any(isinstance(a, ast.Starred) and isinstance(a.value, ast.Name) and a.value.id == coll for a in c.args):
-                return True
+    # (merely awaiting wait(<all of them>) is not settling: a pending task that is never cancelled may never complete, and the caller hangs)
     for s in fn.body:
-        if isinstance(s, (ast.For, ast.AsyncFor)) and isinstance(s.iter, ast.Name) and s.iter.id == coll and isinstance(s.target, ast.Name):
+        it = s.iter if isinstance(s, (ast.For, ast.AsyncFor)) else None
+        if isinstance(it, (ast.GeneratorExp, ast.ListComp)) and len(it.generators) == 1 and isinstance(it.generators[0].iter, ast.Name) and it.generators[0].iter.id == coll \
+                and isinstance(it.generators[0].target, ast.Name) and isinstance(it.elt, ast.Name) and it.elt.id == it.generators[0].target.id:
+            # for x in (t for t in coll if not t.done()): the elements filtered out are done already
+            g = it.generators[0]
+            v = g.target.id
+            if all(isinstance(c, ast.UnaryOp) and isinstance(c.op, ast.Not) and isinstance(c.operand, ast.Call) and isinstance(c.operand.func, ast.Attribute) and c.operand.func.attr == "done"
+                   and isinstance(c.operand.func.value, ast.Name) and c.operand.func.value.id == v and not c.operand.args for c in g.ifs):
+                it = ast.Name(id=coll, ctx=ast.Load())
+        if isinstance(s, (ast.For, ast.AsyncFor)) and isinstance(it, ast.Name) and it.id == coll and isinstance(s.target, ast.Name):
             t = s.target.id
             st = {t: MAYBE}
             ts = TaskTypestate({}, lambda c: None)
